@@ -2,6 +2,7 @@ package core
 
 import (
 	"bufio"
+	"bytes"
 	"context"
 	"crypto/sha1"
 	"encoding/hex"
@@ -17,14 +18,14 @@ import (
 // executes one fresh child process (GOMAXPROCS=1) per seed and streams the
 // results back.  It exists only because process creation from Python is slow.
 type batchSpec struct {
-	Seeds     []uint64 `json:"seeds"`
-	Out       string   `json:"out"`
-	Stop      string   `json:"stop"`
-	Deadline  float64  `json:"deadline_unix"`
-	TimeoutS  int      `json:"timeout_s"`
-	KeepFull  int      `json:"keep_full"`
-	WorkDir   string   `json:"workdir"`
-	Tag       string   `json:"tag"`
+	Seeds    []uint64 `json:"seeds"`
+	Out      string   `json:"out"`
+	Stop     string   `json:"stop"`
+	Deadline float64  `json:"deadline_unix"`
+	TimeoutS int      `json:"timeout_s"`
+	KeepFull int      `json:"keep_full"`
+	WorkDir  string   `json:"workdir"`
+	Tag      string   `json:"tag"`
 }
 
 func runBatch(path string) {
@@ -76,7 +77,9 @@ func runBatch(path string) {
 		if data, err := os.ReadFile(res); err == nil {
 			os.Remove(res)
 			var d map[string]interface{}
-			if err := json.Unmarshal(data, &d); err != nil {
+			dec := json.NewDecoder(bytes.NewReader(data))
+			dec.UseNumber()
+			if err := dec.Decode(&d); err != nil {
 				rec["crash"] = "unparsable result: " + err.Error()
 				stop = true
 			} else {
